@@ -68,7 +68,10 @@ RsNeededOK(ev, R, X, Ns) == RsNeededOKBy(ev.k, ev.m, R, X, Ns)
 NeedViol(ev) ==
    LET R == ev.R  X == ev.X
        both == Range(R) \cup Range(X)
-       wellformed == NoDup(R \o X) /\ both \subseteq 0..(NN(ev)-1) /\ Len(R) > 0
+       \* "ov": an index may sit in both lists (each list free of repeats); what counts is the union
+       \* (judged for the Reed-Solomon type backends only: the flat-XOR planner classifies the concatenation of the two
+       \* lists, the property's quantifier speaks of disjoint lists, and the unchanged tree refuses some overlapping ones)
+       wellformed == (IF Has(ev, "ov") THEN ev.be \in {4, 6, 7} /\ NoDup(R) /\ NoDup(X) ELSE NoDup(R \o X)) /\ both \subseteq 0..(NN(ev)-1) /\ Len(R) > 0
        okN == IF ev.be = 3 THEN NeededOK(TabOf(ev), R, X, ev.N) ELSE RsNeededOK(ev, R, X, ev.N)
    IN IF ~wellformed THEN {}
       ELSE (IF ev.rc >= 0 /\ ~okN THEN {"C06 wrong list returned"} ELSE {})
